@@ -1,6 +1,7 @@
 package main
 
 import (
+	"go/token"
 	"strconv"
 	"strings"
 
@@ -487,6 +488,122 @@ func (c *Ctx) checkOwnerLoop(fn *ssa.Function, listTrace string, allowBootstrap 
 					n++
 					succ := 0
 					if swapped {
+						succ = 1
+					}
+					owner = append(owner, struct {
+						from *ssa.BasicBlock
+						succ int
+					}{b, succ})
+				}
+			}
+		}
+		if n == 0 {
+			// slices.ContainsFunc(bootstrap witnesses, func(bw) bool { … root(bw) == hash }): true only if some
+			// witness's computed root equals this input's hash
+			for _, b := range fn.Blocks {
+				iff, isIf := b.Instrs[len(b.Instrs)-1].(*ssa.If)
+				if !isIf {
+					continue
+				}
+				cond, neg := iff.Cond, false
+				for {
+					u, isU := cond.(*ssa.UnOp)
+					if !isU || u.Op != token.NOT {
+						break
+					}
+					cond, neg = u.X, !neg
+				}
+				call, isCall := cond.(*ssa.Call)
+				if !isCall || !strings.HasPrefix(calleeName(&call.Call), "slices.ContainsFunc") || len(call.Call.Args) != 2 {
+					continue
+				}
+				if !strings.Contains(trace(call.Call.Args[0]), "Bootstrap(Witnesses(p0))") {
+					continue
+				}
+				mc, isMC := call.Call.Args[1].(*ssa.MakeClosure)
+				if !isMC {
+					continue
+				}
+				pred, _ := mc.Fn.(*ssa.Function)
+				if pred == nil || len(pred.Params) != 1 {
+					continue
+				}
+				// the captured variable holding this input's hash
+				var hashFV *ssa.FreeVar
+				for i, bnd := range mc.Bindings {
+					if strings.HasPrefix(trace(bnd), "Hash<assert<"+pt) && i < len(pred.FreeVars) {
+						hashFV = pred.FreeVars[i]
+					}
+				}
+				if hashFV == nil {
+					continue
+				}
+				isRootOfElem := func(v ssa.Value) bool {
+					t := trace(v)
+					return strings.HasPrefix(t, "computeByronAddressRoot(PublicKey<") && strings.Contains(t, "ChainCode<") && strings.Contains(t, "Attributes<") && strings.HasSuffix(t, "#0") && strings.Contains(t, "<p0")
+				}
+				isHashFV := func(v ssa.Value) bool {
+					r := rootValue(v, 0)
+					if r == ssa.Value(hashFV) {
+						return true
+					}
+					if a, ok := r.(*ssa.Alloc); ok && singleStore(a) == ssa.Value(hashFV) {
+						return true
+					}
+					return strings.HasPrefix(trace(v), "free:"+hashFV.Name())
+				}
+				isEq := func(v ssa.Value) bool {
+					bo, ok := v.(*ssa.BinOp)
+					return ok && bo.Op == token.EQL && (isRootOfElem(bo.X) && isHashFV(bo.Y) || isRootOfElem(bo.Y) && isHashFV(bo.X))
+				}
+				// every value the predicate can return is false, the equality itself, or true behind an equality edge
+				okPred := true
+				var eqEdges [][2]interface{}
+				for _, pb := range pred.Blocks {
+					if pif, ok := pb.Instrs[len(pb.Instrs)-1].(*ssa.If); ok && isEq(pif.Cond) {
+						eqEdges = append(eqEdges, [2]interface{}{pb, 0})
+					}
+				}
+				preach, _ := reachAvoiding(pred, func(from *ssa.BasicBlock, s2 int) bool {
+					for _, e := range eqEdges {
+						if e[0].(*ssa.BasicBlock) == from && e[1].(int) == s2 {
+							return true
+						}
+					}
+					return false
+				})
+				var check func(v ssa.Value, blk *ssa.BasicBlock, d int) bool
+				check = func(v ssa.Value, blk *ssa.BasicBlock, d int) bool {
+					if d > 4 {
+						return false
+					}
+					if k, isK := v.(*ssa.Const); isK {
+						return desc(k) == "false" || !preach[blk]
+					}
+					if isEq(v) {
+						return true
+					}
+					if ph, isPhi := v.(*ssa.Phi); isPhi {
+						for i, e := range ph.Edges {
+							if !check(e, ph.Block().Preds[i], d+1) {
+								return false
+							}
+						}
+						return true
+					}
+					return false
+				}
+				for _, pb := range pred.Blocks {
+					if r, ok := pb.Instrs[len(pb.Instrs)-1].(*ssa.Return); ok && len(r.Results) == 1 {
+						if !check(r.Results[0], pb, 0) {
+							okPred = false
+						}
+					}
+				}
+				if okPred {
+					n++
+					succ := 0
+					if neg {
 						succ = 1
 					}
 					owner = append(owner, struct {
